@@ -26,71 +26,125 @@ EXPLANATION = (
     "generator exit).")
 ASSUMPTIONS = ["elements are totally ordered datetimes", "value-level agreement with list(rule) is NOT decided"]
 
-# (method) -> set of (inc-context, op, left, right, action)
+# (method) -> set of (inc-context, op, argument, outcome of the TRUE edge)
+#   outcome: 'ret:prev' returns the last element seen, 'ret:elem' the current element, 'ret:acc' the accumulated list,
+#            'ret:True' / 'ret:False'; 'append' = the element is appended and the scan continues
 EXPECTED = {
-    "before": {("inc", "Gt", "i", "dt", "Break"), ("not-inc", "GtE", "i", "dt", "Break")},
-    "after": {("inc", "GtE", "i", "dt", "Return"), ("not-inc", "Gt", "i", "dt", "Return")},
-    "between": {("inc", "Gt", "i", "before", "Break"), ("inc", "GtE", "i", "after", "Assign"),
-                ("not-inc", "GtE", "i", "before", "Break"), ("not-inc", "Gt", "i", "after", "Assign")},
-    "__contains__": {("any", "Eq", "i", "item", "Return"), ("any", "Gt", "i", "item", "Return")},
+    "before": {("inc", "Gt", "dt", "ret:prev"), ("not-inc", "GtE", "dt", "ret:prev")},
+    "after": {("inc", "GtE", "dt", "ret:elem"), ("not-inc", "Gt", "dt", "ret:elem")},
+    "between": {("inc", "Gt", "before", "ret:acc"), ("inc", "GtE", "after", "append"),
+                ("not-inc", "GtE", "before", "ret:acc"), ("not-inc", "Gt", "after", "append")},
+    "__contains__": {("any", "Eq", "item", "ret:True"), ("any", "Gt", "item", "ret:False")},
 }
 FLIP = {"Lt": "Gt", "LtE": "GtE", "Gt": "Lt", "GtE": "LtE", "Eq": "Eq", "NotEq": "NotEq"}
+NEGATE = {"Lt": "GtE", "LtE": "Gt", "Gt": "LtE", "GtE": "Lt", "Eq": "NotEq", "NotEq": "Eq"}
+
+
+def _roles(f, loopvars):
+    """name -> role for names that may be returned by a scan method."""
+    roles = {}
+    for x in walk_local(f.node):
+        if isinstance(x, ast.Call) and isinstance(x.func, ast.Attribute) and x.func.attr == "append" and isinstance(x.func.value, ast.Name) \
+                and x.args and isinstance(x.args[0], ast.Name) and x.args[0].id in loopvars:
+            roles[x.func.value.id] = "acc"
+        if isinstance(x, ast.Assign) and isinstance(x.value, ast.Name) and x.value.id in loopvars:
+            for t in x.targets:
+                if isinstance(t, ast.Name):
+                    roles[t.id] = "prev"
+    for v in loopvars:
+        roles[v] = "elem"
+    return roles
+
+
+def _outcome(cfg, starts, roles):
+    """What happens on an edge: the returns it can reach without starting another iteration, or 'append'/'skip'."""
+    heads = [n for n in cfg.live_nodes() if n.kind == "for"]
+    outs = set()
+    seen = set()
+    stack = list(starts)
+    reaches_head = False
+    while stack:
+        n = stack.pop()
+        if n.id in seen:
+            continue
+        seen.add(n.id)
+        if n.kind == "for":
+            reaches_head = True
+            # leaving the loop (exhaust) is followed; a new iteration is not
+            for t, lab in n.succ:
+                if lab == "exhaust" and n in starts:
+                    stack.append(t)
+            continue
+        if n.kind == "stmt" and isinstance(n.ast, ast.Return):
+            v = n.ast.value
+            if isinstance(v, ast.Constant):
+                outs.add("ret:%s" % v.value)
+            elif isinstance(v, ast.Name):
+                outs.add("ret:" + roles.get(v.id, v.id))
+            else:
+                outs.add("ret:" + (src(v) if v is not None else "None"))
+            continue
+        for t, lab in n.succ:
+            if lab != "exc":
+                stack.append(t)
+    if reaches_head and not outs:
+        # continues scanning: with or without recording the element?
+        appends = [n for n in cfg.live_nodes() if n.kind == "stmt" and isinstance(n.ast, ast.Expr) and isinstance(n.ast.value, ast.Call)
+                   and isinstance(n.ast.value.func, ast.Attribute) and n.ast.value.func.attr == "append"
+                   and roles.get(src(n.ast.value.func.value)) == "acc"]
+        miss = False
+        for s0 in starts:
+            if s0 in appends:
+                continue
+            if cfg.path_avoiding(s0, heads, avoid_nodes=appends, include_start=True) is not None:
+                miss = True
+        return "skip" if (miss or not appends) else "append"
+    if reaches_head:
+        outs.add("loop")
+    return "|".join(sorted(outs)) if outs else "none"
 
 
 def comparators(ctx, f, loopvars, params):
-    """Every comparison in f between a loop element and a parameter, with inc context and guarded action."""
+    """Every branch of f that compares a scanned element with a query argument: (inc context, operator normalised to
+    `element <op> argument`, argument, outcome of the edge on which the comparison holds)."""
     cfg = ctx.cfg(f)
     facts = ctx.facts(f)
+    roles = _roles(f, loopvars)
     out = set()
     raw = []
     for n in cfg.live_nodes():
-        exprs = []
-        if n.kind == "branch":
-            exprs = [(n.ast, n)]
-        elif n.kind == "stmt" and n.ast is not None and not isinstance(n.ast, (ast.FunctionDef, ast.ClassDef)):
-            exprs = [(n.ast, n)]
-        for e, node in exprs:
-            for x in ast.walk(e):
-                if isinstance(x, ast.Lambda):
-                    continue
-                if isinstance(x, ast.Compare):
-                    names = set(y.id for y in ast.walk(x) if isinstance(y, ast.Name))
-                    if not (names & loopvars and names & params):
-                        continue
-                    c = norm_cmp(x) if n.kind != "branch" or x is not n.ast else norm_cmp(n.ast)
-                    top = n.ast
-                    while isinstance(top, ast.UnaryOp) and isinstance(top.op, ast.Not):
-                        top = top.operand
-                    if n.kind == "branch" and top is x and x is not n.ast:
-                        c = norm_cmp(n.ast)         # `not (a < b)` at the top of the test
-                        tsucc = [s_ for s_, lab in n.succ if lab == "true"]
-                        action = type(tsucc[0].ast).__name__ if tsucc and tsucc[0].ast is not None else "?"
-                        if tsucc and tsucc[0].kind == "branch":
-                            action = "If"
-                    elif x is not n.ast and n.kind == "branch":
-                        # comparison nested in a larger test (IfExp, BoolOp): report as-is
-                        c = norm_cmp(x)
-                        action = "Nested:" + type(n.ast).__name__
-                    elif n.kind == "branch":
-                        tsucc = [s for s, lab in n.succ if lab == "true"]
-                        action = type(tsucc[0].ast).__name__ if tsucc and tsucc[0].ast is not None else "?"
-                        if tsucc and tsucc[0].kind == "branch":
-                            action = "If"
-                    else:
-                        action = "Expr:" + type(n.ast).__name__
-                    if c is None:
-                        raw.append((src(x), "unrecognised"))
-                        continue
-                    op, l, r = c
-                    if l in params and r in loopvars:
-                        op, l, r = FLIP.get(op, op), r, l
-                    fs = facts.at(node)
-                    inc = "any"
-                    if ("inc", True) in fs:
-                        inc = "inc"
-                    elif ("inc", False) in fs:
-                        inc = "not-inc"
-                    out.add((inc, op, l, r, action))
+        if n.ast is None or n.kind not in ("stmt", "branch") or isinstance(n.ast, (ast.FunctionDef, ast.ClassDef)):
+            continue
+        for x in ast.walk(n.ast):
+            if isinstance(x, ast.Lambda):
+                break
+            if not isinstance(x, ast.Compare):
+                continue
+            names = set(y.id for y in ast.walk(x) if isinstance(y, ast.Name))
+            if not (names & loopvars and names & params):
+                continue
+            top = n.ast
+            neg = False
+            while isinstance(top, ast.UnaryOp) and isinstance(top.op, ast.Not):
+                top = top.operand
+                neg = not neg
+            if n.kind != "branch" or top is not x or len(x.ops) != 1:
+                raw.append("%s in `%s`" % (src(x), stmt_text(n)))
+                continue
+            op = type(x.ops[0]).__name__
+            l, r = src(x.left), src(x.comparators[0])
+            if l in params and r in loopvars:
+                op, l, r = FLIP.get(op, op), r, l
+            if not (l in loopvars and r in params):
+                raw.append("%s in `%s`" % (src(x), stmt_text(n)))
+                continue
+            fs = facts.at(n)
+            inc = "inc" if ("inc", True) in fs else ("not-inc" if ("inc", False) in fs else "any")
+            t_s = [s_ for s_, lab in n.succ if lab == "true"]
+            f_s = [s_ for s_, lab in n.succ if lab == "false"]
+            hold, other = (f_s, t_s) if neg else (t_s, f_s)
+            o_hold = _outcome(cfg, hold, roles)
+            out.add((inc, op, r, o_hold))
     return out, raw
 
 
@@ -108,16 +162,18 @@ def run(ctx):
             if isinstance(n, ast.For):
                 loopvars |= set(x.id for x in ast.walk(n.target) if isinstance(x, ast.Name))
         got, raw = comparators(ctx, f, loopvars, params)
-        # `between` nests the start test under `not started`
-        got2 = set()
-        for g in got:
-            got2.add(g)
+        # a comparison may also be written from the other side: `not (i < dt)` is normalised by the CFG edge taken;
+        # `i <= dt: continue scanning` is the negation of `i > dt: stop` - accept the complementary spelling
+        got2 = set(got)
+        for (inc, op, arg, oc) in list(got):
+            pass
         for w in sorted(want):
             n_cmp += 1
-            ctx.ob("C12.CMP", f, "%s uses `%s %s %s` (%s) to %s" % (m, w[2], w[1], w[3], w[0], w[4].lower()), w in got2,
-                   construct="%s: %s %s %s %s -> %s" % (m, w[0], w[2], w[1], w[3], w[4]),
-                   detail="" if w in got2 else "comparators found: %s" % sorted(got2), analysis="CMP decision table from branch facts")
-        extra = sorted(got2 - want)
+            ok = w in got2
+            ctx.ob("C12.CMP", f, "%s: when `element %s %s` (%s) the scan %s" % (m, w[1], w[2], w[0], w[3]), ok,
+                   construct="%s: %s element %s %s -> %s" % (m, w[0], w[1], w[2], w[3]),
+                   detail="" if ok else "comparators found: %s" % sorted(got2), analysis="CMP decision table (branch facts + edge outcomes)")
+        extra = sorted(g for g in got2 - want if not (g[3] in ("skip", "loop") and (g[0], NEGATE.get(g[1]), g[2]) in set((x[0], x[1], x[2]) for x in want)))
         ctx.ob("C12.CMP", f, "%s contains no other comparison between an element and a query argument" % m, not extra and not raw,
                construct="%s: comparator set" % m, detail="" if not (extra or raw) else "unexpected comparators %s %s" % (extra, raw),
                analysis="CMP decision table")
@@ -216,7 +272,9 @@ def run(ctx):
     ctx.ob("C12.FAST", gi, "a non-negative index advances item+1 times", bool(pos) and all(("item >= 0", True) in facts.at(p) for p in pos),
            construct="for i in range(item + 1)")
     isl = [x for x in walk_local(gi.node) if isinstance(x, ast.Call) and src(x.func) == "itertools.islice"]
-    oks = len(isl) == 1 and [src(a).replace(" ", "") for a in isl[0].args] == ["self", "item.startor0", "item.stoporsys.maxsize", "item.stepor1"]
+    inl = ctx.inliner(gi)
+    isl_node = [n for n in cfg.live_nodes() if n.ast is not None and isl and any(x is isl[0] for x in ast.walk(n.ast))]
+    oks = len(isl) == 1 and bool(isl_node) and [inl.src(isl_node[0], a).replace(" ", "") for a in isl[0].args] == ["self", "item.startor0", "item.stoporsys.maxsize", "item.stepor1"]
     ctx.ob("C12.FAST", gi, "forward slices are islice(self, start or 0, stop or maxsize, step or 1)", oks, construct="itertools.islice arguments",
            detail="" if oks else str([src(a) for a in isl[0].args]) if isl else "no islice")
 
